@@ -1,6 +1,7 @@
 (** C09 — per-connection concurrency limits hold and capacity never leaks
     (established ID-multiplexed connection). Statements only; proofs in Proofs/Tdc.v. *)
 From Verif Require Import Base.Prelude Gen.Constants Model.Tdc Proofs.Tdc.
+From Verif Require Model.Lazy Proofs.Lazy.
 Open Scope N_scope.
 
 (** In every reachable state the two counters are exact: [reserved] is the
@@ -55,6 +56,58 @@ Example c09_nonvacuous :
          LSelect 1 SelReply; LReserve 3 1; LReserve 4 1; LReserve 5 1] with
   | Some s => cres (calls s 2%nat) = Some (RRefused false) /\ cres (calls s 5%nat) = Some (RRefused false)
               /\ reserved s = 2 /\ qlen s = 0 /\ live s = [4%nat; 3%nat]
+  | None => False
+  end.
+Proof. vm_compute. repeat split; reflexivity. Qed.
+
+(** * The connection while it is still dialing (lazyDnsConn, Model.Lazy) *)
+Import Model.Lazy Proofs.Lazy.
+
+(** In every reachable state of the dialing connection the counters are exact
+    and within their limits: early reservations = callers that entered while
+    dialing and have not returned, never more than the queue limit;
+    reservations of the real connection never more than its limit; the wait
+    group counts exactly the early callers that still have to re-reserve. *)
+Theorem c09_lazy_accounting maxq im ls s :
+  lrun (linit maxq im) ls = Some s ->
+  lreserved s = gcnt kearly (lcalls s) (llive s) /\ lreserved s <= maxq /\
+  icount s = gcnt kinner (lcalls s) (llive s) /\ icount s <= im /\
+  ((ldial s = Dialing \/ ldial s = DialOk) -> lwg s = gcnt kpend (lcalls s) (llive s)).
+Proof. exact (lazy_accounting maxq im ls s). Qed.
+Print Assumptions c09_lazy_accounting.
+
+Theorem c09_lazy_no_leak maxq im ls s :
+  lrun (linit maxq im) ls = Some s -> llive s = [] ->
+  lreserved s = 0 /\ icount s = 0 /\ ((ldial s = Dialing \/ ldial s = DialOk) -> lwg s = 0).
+Proof. exact (lazy_no_leak maxq im ls s). Qed.
+Print Assumptions c09_lazy_no_leak.
+
+(** Queries queued while the connection was dialing are not refused once the
+    dial succeeds with an equal (or larger) limit. *)
+Theorem c09_early_callers_served maxq im ls s c :
+  lrun (linit maxq im) ls = Some s -> maxq <= im ->
+  qpc (lcalls s c) = QEarlyGo -> iclosed s = false ->
+  exists s', lstep s (ZReReserve c) = Some s' /\ qpc (lcalls s' c) = QInner /\ qres (lcalls s' c) = None.
+Proof. exact (early_callers_served maxq im ls s c). Qed.
+Print Assumptions c09_early_callers_served.
+
+(** While dialing: below the queue limit a caller is admitted, at the limit refused (nothing counted). *)
+Theorem c09_lazy_admits_while_dialing s c :
+  ldial s = Dialing -> lfast s = 0 -> qpc (lcalls s c) = QIdle -> ~ In c (llive s) ->
+  exists s', lstep s (ZReserve c) = Some s' /\
+    (if lmaxq s <=? lreserved s then qres (lcalls s' c) = Some (LRRefused false) /\ lreserved s' = lreserved s
+     else qpc (lcalls s' c) = QEarly /\ lreserved s' = lreserved s + 1).
+Proof. exact (lazy_admits_while_dialing s c). Qed.
+Print Assumptions c09_lazy_admits_while_dialing.
+
+(** Non-vacuity: queue limit 2 = real limit 2; a third caller is refused while
+    dialing; after the dial both queued callers get their reservation, a late
+    caller has to wait for them and is then refused by the (full) real connection. *)
+Example c09_lazy_nonvacuous :
+  match lrun (linit 2 2) [ZReserve 0; ZReserve 1; ZReserve 2; ZStart 0; ZStart 1; ZDialDone true; ZGo 0; ZGo 1;
+                          ZReReserve 1; ZReReserve 0; ZReserve 3] with
+  | Some s => qres (lcalls s 2%nat) = Some (LRRefused false) /\ qpc (lcalls s 0%nat) = QInner /\ qpc (lcalls s 1%nat) = QInner
+              /\ qres (lcalls s 3%nat) = Some (LRRefused false) /\ lstep (match lrun (linit 2 2) [ZReserve 0; ZDialDone true] with Some x => x | None => s end) (ZReserve 5) = None
   | None => False
   end.
 Proof. vm_compute. repeat split; reflexivity. Qed.
